@@ -795,3 +795,331 @@ Proof.
   intros cl live s p ops x obs H. cbn [comm_ok] in H. apply andb_prop in H. destruct H as [H1 H2].
   split; [|exact H2]. now apply memb_false, negb_true_iff.
 Qed.
+
+(* ------------------------------------------------------------------------------------------ *)
+(* Part 5: admission versus teardown.                                                           *)
+Lemma trun_stops : forall l st,
+  t_closed (trun st (map TStop l)) = t_closed st /\
+  t_pend (trun st (map TStop l)) = t_pend st /\
+  t_stops (trun st (map TStop l)) = rev l ++ t_stops st.
+Proof.
+  induction l as [|p l IH]; intro st; [now repeat split|].
+  cbn [map trun fold_left]. change (fold_left tdo (map TStop l) (tdo st (TStop p))) with (trun (tdo st (TStop p)) (map TStop l)).
+  destruct (IH (tdo st (TStop p))) as [H1 [H2 H3]]. rewrite H1, H2, H3. cbn [tdo t_closed t_pend t_stops rev].
+  repeat split. now rewrite <- app_assoc.
+Qed.
+
+Lemma filter_tclose_stops : forall l, filter is_tclose (map TStop l) = [].
+Proof. induction l as [|p l IH]; [reflexivity | exact IH]. Qed.
+
+Lemma firstn_map_stop : forall k l, firstn k (map TStop l) = map TStop (firstn k l).
+Proof. intros k l. apply firstn_map. Qed.
+
+Lemma skipn_map_stop : forall k l, skipn k (map TStop l) = map TStop (skipn k l).
+Proof. intros k l. apply skipn_map. Qed.
+
+Lemma count_occ_rev_seq : forall n p, p < n -> count_occ Nat.eq_dec (rev (seq 0 n)) p = 1.
+Proof.
+  intros n p Hp.
+  assert (Hnd : NoDup (rev (seq 0 n))) by (apply NoDup_rev, seq_NoDup).
+  assert (Hin : In p (rev (seq 0 n))) by (apply in_rev; rewrite rev_involutive; apply in_seq; lia).
+  pose proof (proj1 (NoDup_count_occ Nat.eq_dec _) Hnd p) as Hle.
+  pose proof (proj1 (count_occ_In Nat.eq_dec _ p) Hin) as Hge. lia.
+Qed.
+
+Lemma stops_vec_final : forall np st, t_stops st = rev (seq 0 np) -> stops_vec np st = repeat 1 np.
+Proof.
+  intros np st Hs. unfold stops_vec. rewrite Hs.
+  assert (H : forall l, (forall p, In p l -> p < np) ->
+              map (fun p => count_occ Nat.eq_dec (rev (seq 0 np)) p) l = repeat 1 (length l)).
+  { induction l as [|q l IH]; intro Hl; [reflexivity|]. cbn [map length repeat].
+    rewrite count_occ_rev_seq by (apply Hl; now left). f_equal. apply IH. intros p Hp. apply Hl. now right. }
+  rewrite H; [now rewrite seq_length|]. intros p Hp. apply in_seq in Hp. lia.
+Qed.
+
+Lemma teardown_final : forall np,
+  let fin := trun tinit (code_teardown np) in
+  t_closed fin = 1 /\ t_pend fin = false /\ t_stops fin = rev (seq 0 np).
+Proof.
+  intro np. cbv zeta. unfold code_teardown. cbn [trun fold_left].
+  change (fold_left tdo (map TStop (seq 0 np)) (tdo (tdo tinit TClose) TClear))
+    with (trun (tdo (tdo tinit TClose) TClear) (map TStop (seq 0 np))).
+  destruct (trun_stops (seq 0 np) (tdo (tdo tinit TClose) TClear)) as [H1 [H2 H3]].
+  rewrite H1, H2, H3. cbn. repeat split. now rewrite app_nil_r.
+Qed.
+
+(* the order the code performs: a request arriving before the flag is cleared (inside CloseSession
+   or before) is refused; one that is admitted finds the session closed and no CloseSession of the
+   old run still to come; in the end: closed once, flag clear, every process stopped exactly once *)
+Lemma teardown_order : forall np k,
+  let st := arrive (code_teardown np) k in
+  (k <= 1 -> admitted_at (code_teardown np) k = false) /\
+  (t_pend st = true -> admitted_at (code_teardown np) k = false) /\
+  (admitted_at (code_teardown np) k = true ->
+     t_closed st = 1 /\ late_closes (code_teardown np) k = 0) /\
+  (let fin := trun tinit (code_teardown np) in
+   t_closed fin = 1 /\ t_pend fin = false /\ forall p, p < np -> count_occ Nat.eq_dec (t_stops fin) p = 1).
+Proof.
+  intros np k. cbv zeta. split; [|split; [|split]].
+  - intro Hk. destruct k as [|[|k]]; [reflexivity | reflexivity | lia].
+  - intro Hp. unfold admitted_at. now rewrite Hp.
+  - destruct k as [|[|k]]; [discriminate | discriminate |]. intros _.
+    unfold arrive, late_closes, code_teardown. cbn [firstn skipn trun fold_left].
+    rewrite firstn_map_stop, skipn_map_stop, filter_tclose_stops.
+    change (fold_left tdo (map TStop (firstn k (seq 0 np))) (tdo (tdo tinit TClose) TClear))
+      with (trun (tdo (tdo tinit TClose) TClear) (map TStop (firstn k (seq 0 np)))).
+    destruct (trun_stops (firstn k (seq 0 np)) (tdo (tdo tinit TClose) TClear)) as [H1 _].
+    rewrite H1. now split.
+  - destruct (teardown_final np) as [H1 [H2 H3]]. split; [exact H1|]. split; [exact H2|].
+    intros p Hp. rewrite H3. now apply count_occ_rev_seq.
+Qed.
+
+(* any order of teardown steps in which every CloseSession precedes the clearing of the flag is
+   safe: whenever a request is admitted no CloseSession of the old run is still to come *)
+Lemma cbc_safe_gen : forall order st k, t_pend st = true -> closes_before_clear order = true ->
+  t_pend (trun st (firstn k order)) = false -> length (filter is_tclose (skipn k order)) = 0.
+Proof.
+  induction order as [|s r IH]; intros st k Hp Hc Ha.
+  - destruct k; cbn in Ha; congruence.
+  - destruct k as [|k]; [cbn in Ha; congruence|].
+    cbn [firstn skipn trun fold_left] in *.
+    destruct s as [| |p].
+    + apply (IH (tdo st TClose) k); [exact Hp | exact Hc | exact Ha].
+    + cbn [closes_before_clear] in Hc. apply negb_true_iff in Hc.
+      clear -Hc. revert k. induction r as [|s r IHr]; intro k; [now destruct k|].
+      cbn [existsb] in Hc. apply orb_false_iff in Hc. destruct Hc as [Hs Hr].
+      destruct k as [|k]; cbn [skipn filter].
+      * rewrite Hs. apply (IHr Hr 0).
+      * now apply IHr.
+    + apply (IH (tdo st (TStop p)) k); [exact Hp | exact Hc | exact Ha].
+Qed.
+
+Lemma closes_before_clear_safe : forall order k, closes_before_clear order = true ->
+  admitted_at order k = true -> late_closes order k = 0.
+Proof.
+  intros order k Hc Ha. unfold admitted_at, arrive in Ha. apply negb_true_iff in Ha.
+  unfold late_closes. now apply (cbc_safe_gen order tinit k).
+Qed.
+
+(* ... and every other order is unsafe: some request is admitted with a CloseSession of the old run
+   still to come *)
+Lemma cbc_unsafe_gen : forall order st, t_pend st = true -> closes_before_clear order = false ->
+  exists k, t_pend (trun st (firstn k order)) = false /\ 1 <= length (filter is_tclose (skipn k order)).
+Proof.
+  induction order as [|s r IH]; intros st Hp Hc; [discriminate|].
+  destruct s as [| |p].
+  - destruct (IH (tdo st TClose) Hp Hc) as [k [H1 H2]]. exists (S k). now split.
+  - cbn [closes_before_clear] in Hc. apply negb_false_iff in Hc. exists 1. split; [reflexivity|].
+    cbn [skipn]. clear -Hc. induction r as [|s r IHr]; [discriminate|].
+    cbn [existsb] in Hc. cbn [filter]. destruct (is_tclose s); [cbn; lia | now apply IHr].
+  - destruct (IH (tdo st (TStop p)) Hp Hc) as [k [H1 H2]]. exists (S k). now split.
+Qed.
+
+Lemma not_closes_before_clear_unsafe : forall order, closes_before_clear order = false ->
+  exists k, admitted_at order k = true /\ 1 <= late_closes order k.
+Proof.
+  intros order Hc. destruct (cbc_unsafe_gen order tinit eq_refl Hc) as [k [H1 H2]].
+  exists k. unfold admitted_at, arrive, late_closes. rewrite H1. now split.
+Qed.
+
+Lemma teardown_safe_iff_close_first : forall order,
+  (closes_before_clear order = true ->
+     forall k, admitted_at order k = true -> late_closes order k = 0) /\
+  (closes_before_clear order = false ->
+     exists k, admitted_at order k = true /\ 1 <= late_closes order k).
+Proof.
+  intro order. split; [intros H k; now apply closes_before_clear_safe | apply not_closes_before_clear_unsafe].
+Qed.
+
+(* the flag cleared first: a request arriving right after that is admitted, the session is not
+   closed yet and the old run's CloseSession comes after it *)
+Lemma early_clear_refuted : forall np,
+  admitted_at (early_clear_teardown np) 1 = true /\
+  t_closed (arrive (early_clear_teardown np) 1) = 0 /\
+  late_closes (early_clear_teardown np) 1 = 1.
+Proof.
+  intro np. split; [reflexivity|]. split; [reflexivity|].
+  unfold late_closes, early_clear_teardown. cbn [skipn filter is_tclose length].
+  now rewrite filter_tclose_stops.
+Qed.
+
+Lemma natl_eqb_refl : forall l, natl_eqb l l = true.
+Proof. induction l as [|x l IH]; [reflexivity|]. cbn. now rewrite Nat.eqb_refl. Qed.
+
+Lemma natl_eqb_eq : forall a b, natl_eqb a b = true -> a = b.
+Proof.
+  induction a as [|x a IH]; destruct b as [|y b]; intro H; try discriminate; [reflexivity|].
+  cbn in H. apply andb_prop in H. destruct H as [H1 H2]. apply Nat.eqb_eq in H1. f_equal; [exact H1 | now apply IH].
+Qed.
+
+(* the judge of the tear cases accepts the model, wherever the teardown is parked *)
+Lemma tear_ok_model : forall np at_,
+  let order := code_teardown np in
+  let k := tear_pos at_ in
+  let fin := trun tinit order in
+  tear_ok np (model_dec np at_) (model_dec np at_) (t_closed (arrive order k))
+          (if admitted_at order k then late_closes order k else 0) 0 false
+          (stops_vec np fin) (t_closed fin) true (t_pend fin) = true.
+Proof.
+  intros np at_. cbv zeta.
+  destruct (teardown_final np) as [F1 [F2 F3]].
+  destruct (teardown_order np (tear_pos at_)) as [_ [_ [HA _]]].
+  unfold tear_ok, model_dec. rewrite F1, F2, (stops_vec_final np _ F3), natl_eqb_refl.
+  destruct (admitted_at (code_teardown np) (tear_pos at_)) eqn:Ha.
+  - destruct (HA eq_refl) as [H1 H2]. rewrite H1, H2. reflexivity.
+  - reflexivity.
+Qed.
+
+Lemma tear_ok_sound : forall np dec fin cb late live rp sa cl third pa,
+  tear_ok np dec fin cb late live rp sa cl third pa = true ->
+  (dec = TAdmitted -> 1 <= cb /\ live = 0) /\
+  (fin = TAdmitted -> late = 0) /\ fin <> TWaited /\
+  rp = false /\ sa = repeat 1 np /\ 1 <= cl /\ third = true /\ pa = false.
+Proof.
+  intros np dec fin cb late live rp sa cl third pa H. unfold tear_ok in H.
+  repeat (apply andb_prop in H; let H' := fresh "H" in destruct H as [H H']).
+  repeat split.
+  - subst dec. apply andb_prop in H. destruct H as [H _]. now apply Nat.leb_le.
+  - subst dec. apply andb_prop in H. destruct H as [_ H]. now apply Nat.eqb_eq.
+  - intro Hf. subst fin. now apply Nat.eqb_eq.
+  - intro Hf. subst fin. discriminate.
+  - now apply negb_true_iff.
+  - now apply natl_eqb_eq.
+  - now apply Nat.leb_le.
+  - assumption.
+  - now apply negb_true_iff.
+Qed.
+
+(* ------------------------------------------------------------------------------------------ *)
+(* Part 6: Libp2pCommunication with faults at the streams.                                      *)
+Lemma none_in_spec : forall xs cl, none_in xs cl = true <-> forall x, In x xs -> ~ In x cl.
+Proof.
+  intros xs cl. unfold none_in. rewrite forallb_forall. split.
+  - intros H x Hx. now apply memb_false, negb_true_iff, H.
+  - intros H x Hx. now apply negb_true_iff, memb_false, H.
+Qed.
+
+Lemma wcomm_ok_model_gen : forall wf P S ops m nx cl rl live,
+  CommInv P m nx cl live -> wpeers_below P ops = true ->
+  wcomm_ok S cl rl live ops (model_wobs RegOnOpen wf P (m, nx) ops) = true.
+Proof.
+  intros wf P S ops. induction ops as [|o ops IH]; intros m nx cl rl live HI HP; [reflexivity|].
+  cbn [wpeers_below forallb] in HP. apply andb_prop in HP. destruct HP as [Hp HP].
+  destruct HI as [HA HB HC HE HD].
+  destruct o as [s p ofail | s].
+  - apply Nat.ltb_lt in Hp. cbn [model_wobs wstep]. unfold sm_get.
+    destruct (m s p) as [x|] eqn:Hm.
+    + cbn [wcomm_ok]. apply andb_true_intro. split; [apply andb_true_intro; split|].
+      * apply none_in_spec. intros y [<-|[]]. now apply (HA s p).
+      * reflexivity.
+      * cbn [app]. apply IH; [|exact HP]. constructor; try assumption.
+        intros s1 x1 Hin. unfold upd in Hin. destruct (Nat.eqb_spec s1 s) as [->|Hne].
+        -- destruct Hin as [<-|Hin]; [exists p; now split | now apply HC].
+        -- now apply HC.
+    + destruct ofail.
+      * cbn [wcomm_ok]. cbn [app none_in forallb andb].
+        apply IH; [|exact HP]. constructor; try assumption.
+        intros s1 x1 Hin. unfold upd in Hin. destruct (Nat.eqb_spec s1 s) as [->|Hne]; now apply HC.
+      * cbn [wcomm_ok]. apply andb_true_intro. split; [apply andb_true_intro; split|].
+        -- apply none_in_spec. intros y [<-|[]] Hin. apply HB in Hin. lia.
+        -- apply none_in_spec. intros y [<-|[]] Hin. apply HB in Hin. lia.
+        -- cbn [app]. apply IH; [|exact HP].
+           assert (Hget : forall s1 p1 x1, sm_add m s p nx s1 p1 = Some x1 ->
+                     (s1 = s /\ p1 = p /\ x1 = nx) \/ ((s1, p1) <> (s, p) /\ m s1 p1 = Some x1)).
+           { intros s1 p1 x1 H1. unfold sm_add in H1. rewrite Hm in H1.
+             destruct (Nat.eqb_spec s1 s) as [->|Hs]; destruct (Nat.eqb_spec p1 p) as [->|Hq]; cbn in H1.
+             - left. injection H1 as <-. now repeat split.
+             - right. split; [intro Hc; injection Hc as Hc; contradiction | exact H1].
+             - right. split; [intro Hc; injection Hc as Hc; contradiction | exact H1].
+             - right. split; [intro Hc; injection Hc as Hc; contradiction | exact H1]. }
+           assert (Hkeep : forall s1 p1 x1, m s1 p1 = Some x1 -> sm_add m s p nx s1 p1 = Some x1).
+           { intros s1 p1 x1 H1. change (sm_get (sm_add m s p nx) s1 p1 = Some x1).
+             rewrite add_get_other; [exact H1|]. intro Hc. injection Hc as -> ->. rewrite Hm in H1. discriminate. }
+           constructor.
+           ++ intros s1 p1 x1 H1. destruct (Hget _ _ _ H1) as [[_ [_ ->]] | [_ H2]].
+              ** intro Hin. apply HB in Hin. lia.
+              ** now apply (HA s1 p1).
+           ++ intros x Hin. apply HB in Hin. lia.
+           ++ intros s1 x1 Hin. unfold upd in Hin. destruct (Nat.eqb_spec s1 s) as [->|Hne].
+              ** assert (Hnew : sm_add m s p nx s p = Some nx).
+                 { change (sm_get (sm_add m s p nx) s p = Some nx). rewrite add_get_same. unfold sm_get. now rewrite Hm. }
+                 destruct Hin as [<-|[<-|Hin]]; [exists p; now split | exists p; now split |].
+                 destruct (HC _ _ Hin) as [p0 [Hp0 Hm0]]. exists p0. split; [exact Hp0 | now apply Hkeep].
+              ** destruct (HC _ _ Hin) as [p0 [Hp0 Hm0]]. exists p0. split; [exact Hp0 | now apply Hkeep].
+           ++ intros s1 p1 x1 H1. destruct (Hget _ _ _ H1) as [[_ [_ ->]] | [_ H2]]; [lia|].
+              apply HE in H2. lia.
+           ++ intros s1 p1 s2 p2 x H1 H2.
+              destruct (Hget _ _ _ H1) as [[-> [-> ->]] | [_ H1']];
+                destruct (Hget _ _ _ H2) as [[-> [-> Hx]] | [_ H2']].
+              ** now split.
+              ** apply HE in H2'. lia.
+              ** subst x. apply HE in H1'. lia.
+              ** now apply (HD s1 p1 s2 p2 x).
+  - cbn [model_wobs wstep]. cbn [sm_release]. cbn [wcomm_ok].
+    apply andb_true_intro. split; [apply andb_true_intro; split|].
+    + apply forallb_forall. intros x Hin. apply orb_true_iff. left. apply orb_true_iff. left.
+      apply memb_In, in_row. now apply HC.
+    + apply forallb_forall. intros s' _. destruct (Nat.eqb_spec s' s) as [->|Hne]; [reflexivity|].
+      cbn [orb]. apply none_in_spec. intros x Hx Hin. apply in_row in Hin. destruct Hin as [p0 [_ Hm0]].
+      destruct (HC _ _ Hx) as [p1 [_ Hm1]]. destruct (HD _ _ _ _ _ Hm1 Hm0) as [Heq _]. contradiction.
+    + apply IH; [|exact HP].
+      assert (Hrel : forall s1 p1 x1,
+                (if Nat.eqb s1 s then None else m s1 p1) = Some x1 -> s1 <> s /\ m s1 p1 = Some x1).
+      { intros s1 p1 x1 H1. destruct (Nat.eqb_spec s1 s); [discriminate | now split]. }
+      constructor.
+      * intros s1 p1 x1 H1. apply Hrel in H1. destruct H1 as [Hne H1]. intro Hin.
+        apply in_app_or in Hin. destruct Hin as [Hin|Hin]; [|now apply (HA s1 p1 x1)].
+        apply in_row in Hin. destruct Hin as [p0 [_ Hm0]].
+        destruct (HD _ _ _ _ _ H1 Hm0) as [Heq _]. contradiction.
+      * intros x Hin. apply in_app_or in Hin. destruct Hin as [Hin|Hin]; [|now apply HB].
+        apply in_row in Hin. destruct Hin as [p0 [_ Hm0]]. now apply (HE s p0).
+      * intros s1 x1 Hin. unfold upd in Hin. destruct (Nat.eqb_spec s1 s) as [->|Hne]; [destruct Hin|].
+        destruct (HC _ _ Hin) as [p0 [Hp0 Hm0]]. exists p0. split; [exact Hp0|].
+        destruct (Nat.eqb_spec s1 s); [contradiction | exact Hm0].
+      * intros s1 p1 x1 H1. apply Hrel in H1. now apply (HE s1 p1).
+      * intros s1 p1 s2 p2 x H1 H2. apply Hrel in H1. apply Hrel in H2.
+        now apply (HD s1 p1 s2 p2 x).
+Qed.
+
+(* whatever the first write on each stream does (wf), whichever NewStream calls fail *)
+Lemma wcomm_ok_model : forall wf P S ops, wpeers_below P ops = true ->
+  wcomm_ok S [] [] (fun _ => []) ops (model_wobs RegOnOpen wf P (sm_empty, 0) ops) = true.
+Proof.
+  intros wf P S ops H. apply wcomm_ok_model_gen; [|exact H].
+  constructor; unfold sm_empty; intros; try discriminate; try contradiction.
+Qed.
+
+(* registering a fresh stream only after its first write succeeded: a stream whose first write
+   fails is never released *)
+Lemma reg_after_write_refuted :
+  exists wf ops, wpeers_below 2 ops = true /\
+    wcomm_ok 1 [] [] (fun _ => []) ops (model_wobs RegAfterWrite wf 2 (sm_empty, 0) ops) = false.
+Proof. exists (fun _ => true), [WSend 0 1 false; WClose 0]. split; reflexivity. Qed.
+
+Lemma wcomm_ok_sound_close : forall S cl rl live s ops xs obs,
+  wcomm_ok S cl rl live (WClose s :: ops) (WClosed xs :: obs) = true ->
+  (forall x, In x (live s) -> In x xs \/ In x cl \/ In x rl) /\
+  (forall s' x, s' < S -> s' <> s -> In x (live s') -> ~ In x xs) /\
+  wcomm_ok S (xs ++ cl) rl (upd live s []) ops obs = true.
+Proof.
+  intros S cl rl live s ops xs obs H. cbn [wcomm_ok] in H.
+  apply andb_prop in H. destruct H as [H H3]. apply andb_prop in H. destruct H as [H1 H2].
+  split; [|split; [|exact H3]].
+  - intros x Hin. rewrite forallb_forall in H1. specialize (H1 x Hin). apply orb_true_iff in H1.
+    destruct H1 as [H1|H1]; [apply orb_true_iff in H1; destruct H1 as [H1|H1]; [left | right; left] | right; right];
+      now apply memb_In.
+  - intros s' x Hs Hne Hin. rewrite forallb_forall in H2.
+    assert (Hseq : In s' (seq 0 S)) by (apply in_seq; lia). specialize (H2 s' Hseq).
+    destruct (Nat.eqb_spec s' s); [contradiction|]. cbn [orb] in H2.
+    now apply (proj1 (none_in_spec _ _) H2).
+Qed.
+
+Lemma wcomm_ok_sound_send : forall S cl rl live s p f ops o w r obs,
+  wcomm_ok S cl rl live (WSend s p f :: ops) (WSent o w r :: obs) = true ->
+  (forall x, In x w \/ In x o -> ~ In x cl) /\
+  wcomm_ok S cl (r ++ rl) (upd live s (o ++ w ++ live s)) ops obs = true.
+Proof.
+  intros S cl rl live s p f ops o w r obs H. cbn [wcomm_ok] in H.
+  apply andb_prop in H. destruct H as [H H3]. apply andb_prop in H. destruct H as [H1 H2].
+  split; [|exact H3]. intros x [Hx|Hx]; [now apply (proj1 (none_in_spec _ _) H1) | now apply (proj1 (none_in_spec _ _) H2)].
+Qed.
